@@ -1,1 +1,410 @@
-/-! # C03 — property theorems (not built yet) -/
+import RsMatterVerif.Lemmas.SecureMsg
+/-!
+# C03 — secured messages are accepted only if authentic for that session and direction
+
+Theorems over `Model/SecureMsg` (ideal AEAD: the table `Aead` of `Enc key nonce aad pt` terms with
+their wire bytes; `dec` opens a cipher text only as the term it stands for).
+
+* `roundtrip` — what `s.encode` produces, the mirrored session decodes to the identical header
+  (every field) and payload, for every well-formed header shape and every payload.
+* `accept_only_authentic`, `handed_on_only_if_authentic` — a datagram reaches `post_recv` / an
+  exchange of a secure session only if it is `AuthenticFor` that session: bit-identical to the wire
+  form of an encryption under the session's receive key, nonce = (security flags, counter, the peer
+  node id the session was established with), AAD = the complete plain header.
+* `accepted_was_encoded_for_me` — with a table filled by `Session.encode` only: the accepted datagram
+  was encoded by a session whose send key is my receive key and whose node id is my peer node id,
+  with exactly the header and payload that were decoded.
+* `aad_covers_header` — the same cipher text behind a header that differs in any field is never
+  handed to a secure session.
+* `reject_preserves_state`, `inauthentic_preserves_session`, `receive_keeps_keys` — a rejected
+  datagram leaves the whole table untouched; a datagram that is not authentic for a secure session
+  leaves that session (receive window, send counter, exchanges, keys) untouched whatever else it
+  causes; no delivery ever changes keys, identifiers or the send counter of any session.
+-/
+namespace C03
+open SecureMsg
+
+theorem take_len_append (a b : Bytes) : (a ++ b).take ((a ++ b).length - b.length) = a := by
+  simp
+
+/-- the `Enc` term an encoding produces -/
+def mkRec (s : Session) (h : PacketHdr) (payload ct : Bytes) : EncRec :=
+  { key := s.encKey, nonce := nonce h.plain.secFlags h.plain.ctr s.localNode, aad := h.plain.encode,
+    pt := h.proto.encode ++ payload, ct := ct }
+
+theorem encode_secure (s : Session) (h : PacketHdr) (payload ct : Bytes) (hs : s.isEncrypted = true) :
+    s.encode h payload ct = (h.plain.encode ++ ct, some (mkRec s h payload ct)) := by
+  simp [Session.encode, Session.getEncKey, hs, mkRec]
+
+theorem encode_plain (s : Session) (h : PacketHdr) (payload ct : Bytes) (hs : s.isEncrypted = false) :
+    s.encode h payload ct = (h.plain.encode ++ (h.proto.encode ++ payload), none) := by
+  simp [Session.encode, Session.getEncKey, hs]
+
+/-- **Round trip.** -/
+theorem roundtrip (t : Aead) (n : Node) (from_ idx : Nat) (s r : Session) (h : PacketHdr)
+    (payload ct : Bytes)
+    (hs : s.isEncrypted = true) (hr : r.isEncrypted = true)
+    (hkey : r.decKey = s.encKey) (hnode : r.peerNode.getD 0 = s.localNode)
+    (hpl : h.plain.WF) (hpr : h.proto.WF)
+    (hfind : findRx n from_ h.plain = some idx) (hidx : n[idx]? = some r) :
+    decodeStage (mkRec s h payload ct :: t) n from_ (s.encode h payload ct).1 = .decoded idx h payload := by
+  rw [encode_secure s h payload ct hs]
+  simp only
+  unfold decodeStage
+  rw [PlainHdr.decode_encode _ hpl]
+  simp only [take_len_append, hfind, hidx]
+  unfold Session.decodeRemaining Session.getDecKey
+  simp only [hr, if_true]
+  have hd : Aead.dec (mkRec s h payload ct :: t) r.decKey
+      (nonce h.plain.secFlags h.plain.ctr (r.peerNode.getD 0)) h.plain.encode ct
+      = some (h.proto.encode ++ payload) := by
+    have := Aead.dec_head (mkRec s h payload ct) t
+    rw [hkey, hnode]
+    exact this
+  rw [hd]
+  simp only [ProtoHdr.decode_encode _ hpr]
+/-- **Round trip through `decode_packet`**: the clean datagram is handed to `post_recv` of the mirrored
+session with the identical header and payload; what `receive` answers is what `post_recv` says about
+that header (new / existing exchange, duplicate, no exchange). -/
+theorem roundtrip_receive (t : Aead) (n : Node) (from_ idx : Nat) (s r : Session) (h : PacketHdr)
+    (payload ct : Bytes)
+    (hs : s.isEncrypted = true) (hr : r.isEncrypted = true)
+    (hkey : r.decKey = s.encKey) (hnode : r.peerNode.getD 0 = s.localNode)
+    (hpl : h.plain.WF) (hpr : h.proto.WF)
+    (hfind : findRx n from_ h.plain = some idx) (hidx : n[idx]? = some r) :
+    receive (mkRec s h payload ct :: t) n from_ (s.encode h payload ct).1 =
+      (match (r.postRecv h).1 with
+        | .error e => Outcome.err e
+        | .ok nw => Outcome.ok idx nw h payload,
+       n.set idx (r.postRecv h).2) := by
+  unfold receive
+  rw [roundtrip t n from_ idx s r h payload ct hs hr hkey hnode hpl hpr hfind hidx]
+  simp only [hidx]
+  cases (r.postRecv h).1 <;> rfl
+
+/-- what `decodeStage` did when it answered `decoded` -/
+theorem decoded_inv {t : Aead} {n : Node} {from_ idx : Nat} {dg p : Bytes} {h : PacketHdr}
+    (hb : BytesOK dg) (hd : decodeStage t n from_ dg = .decoded idx h p) :
+    ∃ rest r, dg = h.plain.encode ++ rest ∧ h.plain.WF ∧ findRx n from_ h.plain = some idx ∧
+      n[idx]? = some r ∧ r.decodeRemaining t h.plain h.plain.encode rest = .ok (h.proto, p) := by
+  unfold decodeStage at hd
+  cases e : PlainHdr.decode dg with
+  | error x => rw [e] at hd; cases hd
+  | ok v =>
+    obtain ⟨hp, rest⟩ := v
+    rw [e] at hd
+    obtain ⟨hdg, hwf, _⟩ := PlainHdr.decode_sound hb e
+    simp only at hd
+    cases ef : findRx n from_ hp with
+    | none =>
+      rw [ef] at hd
+      simp only at hd
+      split at hd
+      · split at hd
+        · cases hd
+        · split at hd <;> cases hd
+      · split at hd
+        · repeat (first | cases hd | split at hd)
+        · cases hd
+    | some i =>
+      rw [ef] at hd
+      simp only at hd
+      cases ei : n[i]? with
+      | none => rw [ei] at hd; cases hd
+      | some s =>
+        rw [ei] at hd
+        simp only at hd
+        cases er : s.decodeRemaining t hp (dg.take (dg.length - rest.length)) rest with
+        | error x => rw [er] at hd; cases hd
+        | ok v =>
+          obtain ⟨pp, pay⟩ := v
+          rw [er] at hd
+          simp only [Stage.decoded.injEq] at hd
+          obtain ⟨h1, h2, h3⟩ := hd
+          subst h1 h2 h3
+          rw [hdg, take_len_append] at er
+          exact ⟨rest, s, hdg, hwf, ef, ei, er⟩
+
+theorem accept_only_authentic {t : Aead} {n : Node} {from_ idx : Nat} {dg p : Bytes} {h : PacketHdr}
+    {r : Session} (hb : BytesOK dg) (hd : decodeStage t n from_ dg = .decoded idx h p)
+    (hidx : n[idx]? = some r) (hr : r.isEncrypted = true) : AuthenticFor t r dg := by
+  obtain ⟨rest, r', hdg, hwf, _, hi, hrem⟩ := decoded_inv hb hd
+  rw [hidx] at hi
+  injection hi with hi
+  subst hi
+  unfold Session.decodeRemaining Session.getDecKey at hrem
+  simp only [hr, if_true] at hrem
+  cases e : Aead.dec t r.decKey (nonce h.plain.secFlags h.plain.ctr (r.peerNode.getD 0)) h.plain.encode rest with
+  | none => rw [e] at hrem; cases hrem
+  | some pt =>
+    obtain ⟨rec, hm, hk, hn, ha, hc, _⟩ := Aead.dec_some e
+    exact ⟨rec, hm, h.plain, hk, ha, by rw [ha, hc]; exact hdg, hn⟩
+
+/-- **Handed on only if authentic** (the statement at the level of `decode_packet`). -/
+theorem handed_on_only_if_authentic {t : Aead} {n n' : Node} {from_ idx : Nat} {dg p : Bytes}
+    {h : PacketHdr} {nw : Bool} {r : Session} (hb : BytesOK dg)
+    (hrecv : receive t n from_ dg = (.ok idx nw h p, n')) (hidx : n[idx]? = some r)
+    (hr : r.isEncrypted = true) : AuthenticFor t r dg := by
+  unfold receive at hrecv
+  cases e : decodeStage t n from_ dg with
+  | rej x => rw [e] at hrecv; simp at hrecv
+  | decoded i hh pp =>
+    rw [e] at hrecv
+    simp only at hrecv
+    cases ei : n[i]? with
+    | none => rw [ei] at hrecv; simp at hrecv
+    | some s =>
+      rw [ei] at hrecv
+      simp only at hrecv
+      split at hrecv
+      · simp at hrecv
+      · simp only [Prod.mk.injEq, Outcome.ok.injEq] at hrecv
+        obtain ⟨⟨h1, _, _, _⟩, _⟩ := hrecv
+        subst h1
+        exact accept_only_authentic hb e hidx hr
+  | newPlain hh pp =>
+    rw [e] at hrecv
+    simp only at hrecv
+    split at hrecv
+    · split at hrecv
+      · simp at hrecv
+      · simp only [Prod.mk.injEq, Outcome.ok.injEq] at hrecv
+        obtain ⟨⟨h1, _, _, _⟩, _⟩ := hrecv
+        -- the new session sits behind the table: `idx = n.length` is no existing session
+        subst h1
+        simp at hidx
+    · simp at hrecv
+
+/-- a table filled by `Session.encode` calls of the sessions `S` only -/
+def ProducedBy (t : Aead) (S : List Session) : Prop :=
+  ∀ rec ∈ t, ∃ s ∈ S, ∃ (h : PacketHdr) (payload : Bytes),
+    s.isEncrypted = true ∧ s.localNode < 256 ^ 8 ∧ h.plain.WF ∧ h.proto.WF ∧ rec = mkRec s h payload rec.ct
+
+/-- **Accepted ⇒ encoded for me.** With only honest encryptions in the table, a datagram that reaches
+`post_recv` of the secure session `r` is the output of `s.encode h p` for a session `s` whose send key
+is `r`'s receive key and whose node id is the peer node id `r` expects — and `h`, `p` are exactly
+the header and payload the receiver decoded. -/
+theorem accepted_was_encoded_for_me {t : Aead} {S : List Session} {n : Node} {from_ idx : Nat}
+    {dg p : Bytes} {h : PacketHdr} {r : Session} (hprod : ProducedBy t S) (hb : BytesOK dg)
+    (hd : decodeStage t n from_ dg = .decoded idx h p) (hidx : n[idx]? = some r)
+    (hr : r.isEncrypted = true) (hnode : r.peerNode.getD 0 < 256 ^ 8) :
+    ∃ s ∈ S, ∃ ct, s.encKey = r.decKey ∧ s.localNode = r.peerNode.getD 0 ∧
+      dg = (s.encode h p ct).1 ∧ mkRec s h p ct ∈ t := by
+  obtain ⟨rest, r', hdg, hwf, _, hi, hrem⟩ := decoded_inv hb hd
+  rw [hidx] at hi
+  injection hi with hi
+  subst hi
+  unfold Session.decodeRemaining Session.getDecKey at hrem
+  simp only [hr, if_true] at hrem
+  cases e : Aead.dec t r.decKey (nonce h.plain.secFlags h.plain.ctr (r.peerNode.getD 0)) h.plain.encode rest with
+  | none => rw [e] at hrem; cases hrem
+  | some pt =>
+    rw [e] at hrem
+    simp only at hrem
+    obtain ⟨rec, hm, hk, hn, ha, hc, hpt⟩ := Aead.dec_some e
+    obtain ⟨s, hs, h', payload, hse, hsn, hw', hpw', hrec⟩ := hprod rec hm
+    have hkey : s.encKey = r.decKey := by rw [← hk, hrec]; rfl
+    have haad : h'.plain.encode = h.plain.encode := by rw [← ha, hrec]; rfl
+    have hpl : h'.plain = h.plain := PlainHdr.encode_injective hw' hwf haad
+    have hnonce : nonce h'.plain.secFlags h'.plain.ctr s.localNode
+        = nonce h.plain.secFlags h.plain.ctr (r.peerNode.getD 0) := by rw [← hn, hrec]; rfl
+    have hsn' : s.localNode = r.peerNode.getD 0 :=
+      (nonce_injective (secflags_lt hw'.secFlags) hw'.ctr hsn (secflags_lt hwf.secFlags) hwf.ctr hnode hnonce).2.2
+    have hpt' : pt = h'.proto.encode ++ payload := by rw [← hpt, hrec]; rfl
+    rw [hpt', ProtoHdr.decode_encode _ hpw'] at hrem
+    simp only [Except.ok.injEq, Prod.mk.injEq] at hrem
+    obtain ⟨hpr, hpay⟩ := hrem
+    have hh : h' = h := by
+      cases h'; cases h; simp only [PacketHdr.mk.injEq] at *; exact ⟨hpl, hpr⟩
+    subst hh hpay
+    refine ⟨s, hs, rec.ct, hkey, hsn', ?_, ?_⟩
+    · rw [encode_secure s h' payload rec.ct hse, hdg, hc]
+    · rw [← hrec]; exact hm
+
+/-- ideal AEAD, second half: distinct encryptions have distinct cipher texts (the tag binds key,
+nonce and associated data); checked on the real AES-CCM outputs by the driver on every run -/
+def CtInjective (t : Aead) : Prop := ∀ r ∈ t, ∀ r' ∈ t, r.ct = r'.ct → r = r'
+
+/-- **The associated data cover the whole header.** Take a datagram that was really encoded
+(`mkRec s h payload ct ∈ t`) and put its cipher text behind *any* other well-formed header `h'`
+— a change of any field: flags, session id, security flags, counter, source, destination. The
+result is never decoded for a secure session, on any node, from any address. -/
+theorem aad_covers_header {t : Aead} {n : Node} {from_ : Nat} {s : Session} {h : PacketHdr}
+    {payload ct : Bytes} (hin : mkRec s h payload ct ∈ t) (hinj : CtInjective t)
+    (hw : h.plain.WF) (hct : BytesOK ct) (h' : PlainHdr) (hw' : h'.WF) (hne : h' ≠ h.plain)
+    {idx : Nat} {hh : PacketHdr} {p : Bytes} {r : Session}
+    (hd : decodeStage t n from_ (h'.encode ++ ct) = .decoded idx hh p) (hidx : n[idx]? = some r) :
+    r.isEncrypted = false := by
+  cases hr : r.isEncrypted with
+  | false => rfl
+  | true =>
+    exfalso
+    have hb : BytesOK (h'.encode ++ ct) := (PlainHdr.encode_bytesOK h').append hct
+    obtain ⟨rest, r', hdg, hwf, _, hi, hrem⟩ := decoded_inv hb hd
+    rw [hidx] at hi
+    injection hi with hi
+    subst hi
+    -- parsing is deterministic: the decoded header is `h'`, the rest is `ct`
+    have e1 := PlainHdr.decode_encode h' hw' ct
+    rw [hdg, PlainHdr.decode_encode _ hwf] at e1
+    simp only [Except.ok.injEq, Prod.mk.injEq] at e1
+    obtain ⟨e1, e2⟩ := e1
+    unfold Session.decodeRemaining Session.getDecKey at hrem
+    simp only [hr, if_true] at hrem
+    cases e : Aead.dec t r.decKey (nonce hh.plain.secFlags hh.plain.ctr (r.peerNode.getD 0)) hh.plain.encode rest with
+    | none => rw [e] at hrem; cases hrem
+    | some pt =>
+      obtain ⟨rec, hm, _, _, ha, hc, _⟩ := Aead.dec_some e
+      have : rec = mkRec s h payload ct := hinj rec hm _ hin (by rw [hc, e2]; rfl)
+      rw [this] at ha
+      have : h.plain.encode = h'.encode := by rw [← e1]; exact ha
+      exact hne (PlainHdr.encode_injective hw' hw this.symm)
+
+theorem reject_preserves_state {t : Aead} {n : Node} {from_ : Nat} {dg : Bytes} {e : Err}
+    (h : decodeStage t n from_ dg = .rej e) : receive t n from_ dg = (.err e, n) := by
+  simp [receive, h]
+
+/-- everything of a session that receiving must never touch -/
+def fixedPart (s : Session) :=
+  (s.addr, s.localNode, s.peerNode, s.decKey, s.encKey, s.localSid, s.peerSid, s.txCtr, s.mode, s.expired, s.reserved)
+
+theorem postRecv_fixed (s : Session) (h : PacketHdr) : fixedPart (s.postRecv h).2 = fixedPart s := by
+  unfold Session.postRecv
+  simp only
+  split
+  · rfl
+  · split
+    · split
+      · rfl
+      · split <;> rfl
+    · split
+      · rfl
+      · split
+        · rfl
+        · split
+          · split <;> rfl
+          · rfl
+
+/-- the table after a delivery: unchanged, one session replaced by its `postRecv`, or one appended -/
+theorem receive_shape (t : Aead) (n : Node) (from_ : Nat) (dg : Bytes) :
+    (receive t n from_ dg).2 = n ∨
+    (∃ idx h p s, decodeStage t n from_ dg = .decoded idx h p ∧ n[idx]? = some s ∧
+        (receive t n from_ dg).2 = n.set idx (s.postRecv h).2) ∨
+    (∃ s', (receive t n from_ dg).2 = n ++ [s']) := by
+  unfold receive
+  cases e : decodeStage t n from_ dg with
+  | rej x => left; rfl
+  | decoded idx h p =>
+    simp only
+    cases ei : n[idx]? with
+    | none => left; rfl
+    | some s =>
+      right; left
+      refine ⟨idx, h, p, s, rfl, ei, ?_⟩
+      simp only
+      split <;> rfl
+  | newPlain h p =>
+    simp only
+    split
+    · right; right
+      refine ⟨(({ addr := from_, peerNode := h.plain.srcNode } : Session).postRecv h).2, ?_⟩
+      split <;> rfl
+    · left; rfl
+
+/-- **A datagram that is not authentic for a secure session leaves that session untouched** —
+receive window, send counter, exchanges and keys — whatever else the datagram causes (rejection,
+delivery to another session, a new unsecured session). -/
+theorem inauthentic_preserves_session {t : Aead} {n : Node} {from_ i : Nat} {dg : Bytes} {r : Session}
+    (hb : BytesOK dg) (hi : n[i]? = some r) (hr : r.isEncrypted = true)
+    (hna : ¬ AuthenticFor t r dg) : (receive t n from_ dg).2[i]? = some r := by
+  rcases receive_shape t n from_ dg with h | ⟨idx, h, p, s, hd, hs, hn⟩ | ⟨s', hn⟩
+  · rw [h]; exact hi
+  · rw [hn]
+    by_cases hii : idx = i
+    · subst hii
+      rw [hs] at hi
+      injection hi with hi
+      subst hi
+      exact absurd (accept_only_authentic hb hd hs hr) hna
+    · rw [List.getElem?_set_ne hii]; exact hi
+  · rw [hn, List.getElem?_append_left (by
+      have := List.getElem?_eq_some_iff.mp hi
+      exact this.1)]
+    exact hi
+
+/-- **No delivery changes keys, identifiers, mode or the send counter of any session.** -/
+theorem receive_keeps_keys {t : Aead} {n : Node} {from_ i : Nat} {dg : Bytes} {r : Session}
+    (hi : n[i]? = some r) :
+    ∃ r', (receive t n from_ dg).2[i]? = some r' ∧ fixedPart r' = fixedPart r := by
+  rcases receive_shape t n from_ dg with h | ⟨idx, h, p, s, _, hs, hn⟩ | ⟨s', hn⟩
+  · exact ⟨r, by rw [h]; exact hi, rfl⟩
+  · rw [hn]
+    have hlt := (List.getElem?_eq_some_iff.mp hi).1
+    by_cases hii : idx = i
+    · subst hii
+      rw [hs] at hi
+      injection hi with hi
+      subst hi
+      exact ⟨_, by rw [List.getElem?_set_self hlt], postRecv_fixed _ _⟩
+    · exact ⟨r, by rw [List.getElem?_set_ne hii]; exact hi, rfl⟩
+  · have hlt := (List.getElem?_eq_some_iff.mp hi).1
+    exact ⟨r, by rw [hn, List.getElem?_append_left hlt]; exact hi, rfl⟩
+
+/-- a duplicate (an authentic datagram whose counter was already received) changes nothing either -/
+theorem duplicate_preserves_state {s : Session} {h : PacketHdr}
+    (hd : (Dedup.postRecvPlain s.rx h.plain.ctr s.isEncrypted).2 = false) :
+    s.postRecv h = (.error .Duplicate, s) := by
+  unfold Session.postRecv
+  simp [hd]
+
+/-! ## Non-vacuity: a concrete mirrored pair -/
+namespace Ex
+def s : Session := { addr := 9, localNode := 5, peerNode := some 7, encKey := 1, decKey := 2, localSid := 10, peerSid := 20, mode := .case }
+def r : Session := { addr := 1, localNode := 7, peerNode := some 5, decKey := 1, encKey := 2, localSid := 20, peerSid := 10, mode := .case }
+def u : Session := { addr := 1 }
+def h : PacketHdr := { plain := { sessId := 20, ctr := 3 }, proto := { exchFlags := 5, opcode := 2, exchId := 77, protoId := 1 } }
+def h' : PlainHdr := { sessId := 20, ctr := 4 }
+def h0 : PlainHdr := { sessId := 0, ctr := 3 }
+def pay : Bytes := [1, 2, 3]
+def ct : Bytes := [5, 2, 77, 0, 1, 0, 200, 201, 202]
+def t : Aead := [mkRec s h pay ct]
+
+theorem hplain : h.plain.WF := ⟨by decide, by decide, by decide, by decide, by decide, by decide⟩
+theorem hproto : h.proto.WF := ⟨by decide, by decide, by decide, by decide, by decide, by decide⟩
+
+/-- the hypotheses of `roundtrip` hold for the pair, and its conclusion computes -/
+example : decodeStage t [r] 1 (s.encode h pay ct).1 = .decoded 0 h pay :=
+  roundtrip [] [r] 1 0 s r h pay ct (by decide) (by decide) (by decide) (by decide) hplain hproto (by decide) (by decide)
+
+example : receive t [r] 1 (s.encode h pay ct).1 = (.ok 0 true h pay, [(r.postRecv h).2]) := by decide
+
+/-- `accept_only_authentic` / `handed_on_only_if_authentic`: their hypotheses are met by that delivery -/
+example : AuthenticFor t r (s.encode h pay ct).1 :=
+  accept_only_authentic (n := [r]) (from_ := 1) (idx := 0) (h := h) (p := pay) (by decide) (by decide) (by decide) (by decide)
+
+/-- the counter bumped in the header (`h'`), same cipher text: rejected at decryption -/
+example : decodeStage t [r] 1 (h'.encode ++ ct) = .rej .InvalidData := by decide
+/-- `aad_covers_header`: its hypotheses are satisfiable (here the forged header addresses an unsecured
+session, which does take the bytes — and the theorem's conclusion, *not a secure session*, holds) -/
+example : ∃ idx hh p, decodeStage t [r, u] 1 (h0.encode ++ ct) = .decoded idx hh p ∧ [r, u][idx]? = some u :=
+  ⟨1, { plain := h0, proto := { exchFlags := 5, opcode := 2, exchId := 77, protoId := 1 } }, [200, 201, 202],
+    by decide, by decide⟩
+/-- the reflected datagram (what `r` itself would send) is not accepted by `r` -/
+example : decodeStage [mkRec r h pay ct] [r] 1 (r.encode h pay ct).1 = .rej .InvalidData := by decide
+/-- another source node id: rejected -/
+example : decodeStage [mkRec { s with localNode := 6 } h pay ct] [r] 1 (s.encode h pay ct).1 = .rej .InvalidData := by decide
+/-- `inauthentic_preserves_session` / `reject_preserves_state`: a datagram that is not authentic exists -/
+example : ¬ AuthenticFor [] r (s.encode h pay ct).1 := by rintro ⟨_, hm, _⟩; cases hm
+example : receive [] [r] 1 (s.encode h pay ct).1 = (.err .InvalidData, [r]) := by decide
+/-- `ProducedBy` and `CtInjective` hold of the example table -/
+example : ProducedBy t [s] := by
+  intro rec hm
+  simp only [t, List.mem_singleton] at hm
+  exact ⟨s, by simp, h, pay, by decide, by decide, hplain, hproto, by rw [hm]; rfl⟩
+example : CtInjective t := by
+  intro a ha b hb _
+  simp only [t, List.mem_singleton] at ha hb
+  rw [ha, hb]
+end Ex
+
+end C03
